@@ -159,7 +159,7 @@ def run(tier):
     quick = tier == "quick"
     ck.rule = ("S->I: one case = one input (force field id, residue names, from_itp labels, residue-graph edges, first residue id, -mods "
                "selection) of the TLC instances G (all connected graphs on <= 4 residues), S (all interaction subsets of a block of 1-3 atoms), "
-               "M (atom-removing / retyping links and modifications); each input is executed in .ff and polyply .itp syntax with drawn node keys, "
+               "M (atom-removing / retyping links and modifications), X (two or three separate copies of the two-residue block in 5-7 residues); each input is executed in .ff and polyply .itp syntax with drawn node keys, "
                "insertion and edge order. I->S: seeded random inputs (5-8 residues, blocks up to 5 atoms, random sections, 2-3 residue blocks, "
                "cycles) and library force fields; distinct by input")
     ck.assumptions = ["residue ids contiguous, residue graph connected; every copy of a multi-residue block occupies consecutive residue ids and "
@@ -174,18 +174,19 @@ def run(tier):
     jobs = [(G, "FF_export.cfg", {"workers": 4, "timeout": 1500}), (G, "FF_asis.cfg", {"workers": 3, "timeout": 1500}),
             ("FF_S", "FF_export.cfg", {"workers": 2}), ("FF_S", "FF_asis.cfg", {"workers": 2}),
             ("FF_M", "FF_export.cfg", {"workers": 2}), ("FF_M", "FF_asis.cfg", {"workers": 2}),
-            ("FF_Gsmall", "FF_G_small.cfg", {"workers": 2})]
+            ("FF_Gsmall", "FF_G_small.cfg", {"workers": 2}),
+            ("FF_X", "FF_export.cfg", {"workers": 2}), ("FF_X", "FF_asis.cfg", {"workers": 2})]
     jobs += [(m, "FF_dev_%s.cfg" % d, {"workers": 1, "check": False, "timeout": 600}) for m, d, _, _ in DEVS]
     jobs += [(m, "FF_dev_%s.cfg" % r, {"workers": 1, "check": False, "timeout": 600}) for m, r in REACH]
     res = c.tlc_many(jobs, workers_each=2)
-    gx, ga, sx, sa, mx, ma, small = res[:7]
-    for r, what in ((gx, "G"), (sx, "S"), (mx, "M"), (small, "small+Dom_Inv")):
+    gx, ga, sx, sa, mx, ma, small, xx, xa = res[:9]
+    for r, what in ((gx, "G"), (sx, "S"), (mx, "M"), (small, "small+Dom_Inv"), (xx, "X")):
         ck.model_must_hold(r, "C01_Inv/Base_Inv/Layout_Inv on instance " + what)
-    for r in (ga, sa, ma):
+    for r in (ga, sa, ma, xa):
         ck.add_tlc(r)
-    for (m, d, inv, what), r in zip(DEVS, res[7:7 + len(DEVS)]):
+    for (m, d, inv, what), r in zip(DEVS, res[9:9 + len(DEVS)]):
         ck.model_must_refute(r, inv, what)
-    for (m, rname), r in zip(REACH, res[7 + len(DEVS):]):
+    for (m, rname), r in zip(REACH, res[9 + len(DEVS):]):
         ck.model_must_refute(r, rname, "non-vacuity: " + rname)
     ck.extra["deviations_refuted"] = [d for _, d, _, _ in DEVS]
 
@@ -196,6 +197,7 @@ def run(tier):
     ck.sample({"S->I input": cases[len(cases) // 2]["inp"], "expected final atoms (PFinal)": cases[len(cases) // 2]["exp"]["atoms"][:4]})
     replay_instance(ck, "S", sx, sa, tier, sd, both, 6)
     casesM, _ = replay_instance(ck, "M", mx, ma, tier, sd, both if not quick else alt, 5)
+    replay_instance(ck, "X", xx, xa, tier, sd, both, 3)
     ck.sample({"S->I input (mods)": casesM[7]["inp"], "link applications": casesM[7]["apps"][:3]})
 
     ck.stage("I->S: seeded random inputs + library force fields, FFTrace")
